@@ -547,6 +547,7 @@ struct Rules {
     ctor_as_fn: bool,
     map_collect: Option<String>,
     fmt_display: bool,
+    fmt_display_only: Option<String>,
     iter_find: Option<String>,
     iter_max_by: Option<String>,
     for_ref_skip: bool,
@@ -848,6 +849,8 @@ impl<'a> VisitMut for RuleVisitor<'a> {
                         if let Some(Expr::Lit(syn::ExprLit { lit: syn::Lit::Str(lit), .. })) = it.next() {
                             let rest: Vec<Expr> = it.collect();
                             let text = lit.value();
+                            // `E25=<prefix>`: only the format strings that start with <prefix> are data; the others stay with rule E5 (messages)
+                            let wanted = match &self.rules.fmt_display_only { Some(p) => text.starts_with(p.as_str()), None => true };
                             let mut pieces: Vec<Result<String, Expr>> = Vec::new();   // Ok(literal) / Err(argument expression)
                             let mut cur = String::new();
                             let mut next_pos = 0usize;
@@ -882,7 +885,7 @@ impl<'a> VisitMut for RuleVisitor<'a> {
                                 }
                             }
                             if !cur.is_empty() { pieces.push(Ok(cur)); }
-                            if ok && next_pos == rest.len() {
+                            if ok && wanted && next_pos == rest.len() {
                                 let mut stmts: Vec<syn::Stmt> = vec![parse_quote!(let mut __vx_s = String::new();)];
                                 for p in pieces {
                                     match p {
@@ -1747,7 +1750,8 @@ fn transform_fn(
         split_find: rule_list.iter().any(|r| r == "E19"),
         ctor_as_fn: rule_list.iter().any(|r| r == "E26"),
         map_collect: rule_list.iter().find_map(|r| if r == "E24" { Some(String::new()) } else { r.strip_prefix("E24=").map(String::from) }),
-        fmt_display: rule_list.iter().any(|r| r == "E25"),
+        fmt_display: rule_list.iter().any(|r| r == "E25" || r.starts_with("E25=")),
+        fmt_display_only: rule_list.iter().find_map(|r| r.strip_prefix("E25=").map(String::from)),
         iter_find: rule_list.iter().find_map(|r| if r == "E23" { Some(String::new()) } else { r.strip_prefix("E23=").map(String::from) }),
         for_ref_skip: rule_list.iter().any(|r| r == "E22"),
         iter_max_by: rule_list.iter().find_map(|r| if r == "E29" { Some(String::new()) } else { r.strip_prefix("E29=").map(String::from) }),
